@@ -138,7 +138,7 @@ def run_engine(ctx, K):
             # a corrupted edge list of a wide node (lost dependent edge) is what makes values stale there
             extra = ["-include", "C05"]
         rep = K.run_tool(ctx, b, ["-prop", profile, "-claim", ctx.pid] + extra + ["-n", str(n), "-ops", str(ops), "-coq", cases,
-                                  "-coqmax", str(tier_n(ctx, 1, 5) if profile == "widekids" else tier_n(ctx, nq, 400)),
+                                  "-coqmax", str(tier_n(ctx, 1, 5) if profile == "widekids" else tier_n(ctx, nq, 1500)),
                                   "-seed", str(ctx.seed)], "engine-" + profile)
         if profile in ("bind2", "sentinel"):
             continue  # Bind2/3/4 (sugar over Map2 + Bind) and Sentinel are exercised on the implementation only, not in the Coq model
@@ -443,7 +443,7 @@ def run_par_stream(ctx, K, binary, profile, par, n, name, race, known_prefix="",
     report = os.path.join(ctx.workdir, name + ".json")
     cases = os.path.join(ctx.rundir, "cases_%s_%s.v" % (ctx.pid, name.replace("-", "_")))
     args = [binary, "-prop", profile, "-par", str(par), "-claim", claim, "-include", include, "-n", str(n), "-seed", str(ctx.seed),
-            "-coq", cases, "-coqmax", str(tier_n(ctx, 40, 300)), "-json", report] + (["-online"] if online else [])
+            "-coq", cases, "-coqmax", str(tier_n(ctx, 40, 600)), "-json", report] + (["-online"] if online else [])
     env = dict(K.GOENV, GORACE="halt_on_error=0 exitcode=66")
     rc, out = K.sh(args, 3000, cwd=ctx.workdir, env=env)
     open(os.path.join(ctx.workdir, name + ".log"), "w").write(out)
